@@ -2454,4 +2454,21 @@ example : ((processEvent C01_unitsEnv [] (.ingredient (C01_exSaltRefQ "tbsp")) C
     ([], ["incompatible-units"]) := by rfl
 
 
+/-! check (task item 4): a timer with a name AND an amount, an ingredient with modifiers, alias, amount and note are
+    inside the document-level theorems — `SegX.simple` / `SegX.lockOK` do not exclude them, and the intended table
+    entries carry all the parts (`C01_exComp` is also a segment of `C01_exFullDoc`) -/
+def C01_exTimerNQ : ATimer := { C01_exTimer with qty := C01_exTimerAnon.qty }
+example : (SegX.timer C01_exTimerNQ {}).simple = true ∧ (SegX.timer C01_exTimerNQ {}).lockOK = true ∧
+    (SegX.ingredient C01_exComp C01_exCPad).simple = true ∧ (SegX.ingredient C01_exComp C01_exCPad).lockOK = true ∧
+    C01_exTimerNQ.wf toyCharSpec C01_timerExt = true := by
+  decide
+/-- a scaling lock on a timer amount is reported by the code (`unnecessary-scaling-lock`): rightly excluded -/
+example : (SegX.timer C01_exTimer {}).lockOK = false := by decide
+example : (absTimer (α := Rat) C01_exTimerNQ).name = some "soft boil".toList ∧
+    (absTimer (α := Rat) C01_exTimerNQ).quantity.isSome = true ∧
+    (absIngr (α := Rat) C01_exComp).alias = some "EVOO".toList ∧
+    (absIngr (α := Rat) C01_exComp).note = some "cold pressed".toList ∧
+    (absIngr (α := Rat) C01_exComp).quantity.isSome = true := by decide
+
+
 end Cook
